@@ -63,6 +63,59 @@ def simulate (scs : List Script) : List State :=
     | f + 1 => go f (pass sts)
   go ((scs.headD default).rounds.length + 1) sts
 
+/-! ### replay order
+
+  Go's `finalize` replays the queued messages of the round it enters by ranging over a MAP
+  (`h.broadcast[number]` / `h.messages[number]`): the order is unspecified. `Mps.Handler.replayQueued`
+  fixes id order. When two queued messages from different senders fail in different ways, which failure ends the
+  session depends on that order; every order is a behaviour of the code. The `…O` functions below are the model's
+  `accept` with the replay order as a parameter (`acceptO … s.sc.ids = accept`, checked by `#guard`-free
+  definitional unfolding in MpsProps.C17 `acceptO_ids`); the driver accepts the observed verdict if SOME order
+  produces it, and continues from that state. -/
+
+def replayQueuedO (order : List Bytes) (s : State) : State × Option Fail :=
+  order.foldl (replayStep (curSpec s) s.cur) (s, none)
+
+def finalizeStepO (H : Bytes → Bytes) (order : List Bytes) (s : State) : Step :=
+  let s1 := fillBh H s
+  if !receivedAllB H s then .halt s1
+  else if !checkBroadcastHash s1 then .halt (abort s1 (some .echoMismatch))
+  else match protoFinalize s1 with
+    | .error => .halt (abort s1 (some .finalizeErr))
+    | .abortRound cs =>
+      if s1.reached.contains 0 then .halt s1 else .halt (abort (enter0 s1) (some (.protoAbort cs)))
+    | .output v =>
+      if s1.reached.contains 0 then .halt s1 else .halt (abort { enter0 s1 with result := some v } none)
+    | .round i nx =>
+      let s3 := sendAll s1 (emitFor s1 nx)
+      if s3.reached.contains nx.num then .halt s3
+      else match replayQueuedO order (enter s3 i nx) with
+        | (s5, some f) => .halt (abort s5 (some (errOf f)))
+        | (s5, none) => .more s5
+
+def finalizeO (H : Bytes → Bytes) (order : List Bytes) : Nat → State → State
+  | 0, s => s
+  | fuel + 1, s =>
+    match finalizeStepO H order s with
+    | .halt s' => s'
+    | .more s' => finalizeO H order fuel s'
+
+def acceptStoredO (H : Bytes → Bytes) (order : List Bytes) (s1 : State) (m : Msg) : State :=
+  if s1.cur != m.rnd then s1
+  else match (if m.bcast then verifyBroadcastMessage s1 m else verifyMessage s1 m) with
+    | .bad => abort s1 (some (.msgFail m.frm))
+    | .echo => abort s1 (some .echoMismatch)
+    | .ok s2 => finalizeO H order (s2.sc.rounds.length + 1) s2
+
+def acceptO (H : Bytes → Bytes) (order : List Bytes) (s : State) (m : Msg) : State :=
+  if !canAccept s m || terminal s || duplicate s m then s
+  else if m.rnd == 0 then abort s (some (.peerAbort m.frm))
+  else acceptStoredO H order (store s m) m
+
+def perms : List Bytes → List (List Bytes)
+  | [] => [[]]
+  | x :: xs => (perms xs).flatMap fun p => (List.range (p.length + 1)).map fun i => p.take i ++ x :: p.drop i
+
 abbrev Store := List (String × State)
 
 def getS (st : Store) (sid : String) : Option State := (st.find? (·.1 == sid)).map (·.2)
@@ -86,7 +139,14 @@ def handle (st : Store) (op : String) (inp : Json) : Store × Json :=
     | some s =>
       let m := parseMsg (jget inp "msg")
       let can := canAccept s m
-      let s' := accept H s m
+      let s0 := accept H s m
+      -- the observed verdict, when the harness passes it: accepted if some replay order of the code produces it
+      let obs := jstr inp "obsTerm"
+      let s' :=
+        if obs == "" || termJ s0 == obs || s0.err.isNone || s.sc.ids.length > 6 then s0
+        else match (perms s.sc.ids).find? fun o => termJ (acceptO H o s m) == obs with
+          | some o => acceptO H o s m
+          | none => s0
       (putS st sid s', jobj (observe s s' ++ [("can", Json.bool can)]))
   | "stop" =>
     match getS st sid with
